@@ -169,7 +169,8 @@ def judge_obs(o, data, spans, ntok, outs, lexnote=(), raw=False):
     if o["cls"] == "ret":
         if o["verdict"] is True and v == "rej" and why == "extNotLoaded":
             res["C07"] = "accepted although extension %s is not loaded" % warg
-        if o["verdict"] is False and v == "rej" and why == "extNotLoaded" and not irr:
+        # (irregularities that cannot make a correct parser reject earlier do not excuse a wrong message)
+        if o["verdict"] is False and v == "rej" and why == "extNotLoaded" and not (set(irr) - {"unknownExt", "lateRequire"}):
             if ("extension '%s' not loaded" % warg) not in (o["error"] or ""):
                 res["C07"] = "rejected, but message does not name %s: %r" % (warg, o["error"])
     # ---- C18: position
